@@ -43,7 +43,7 @@ def context_py(x, rep, i):
     k = x["k"]
     if k == "dense": return tuple(cell_py(c, rep, i) for c in x["v"])
     if k == "sparse": return {key: cell_py(c, rep, i) for key, c in x["v"]}
-    return cell_py(x["v"], rep, i)
+    return cell_py(x["v"][0], rep, i)          # scalar: the context is the value itself
 
 
 def param_py(p):
@@ -112,7 +112,7 @@ def compare_context(got, exp, rep, i, chosen):
         return None
     from coba import primitives as P
     if isinstance(got, (P.Dense, P.Sparse)) and not isinstance(got, str): return ("layout", None, got)
-    return None if cell_ok(got, exp["v"], rep, i, chosen, 0) else (0, exp["v"], got)
+    return None if cell_ok(got, exp["v"][0], rep, i, chosen, 0) else (0, exp["v"][0], got)
 
 
 # ---------------------------------------------------------------- replay
@@ -334,7 +334,7 @@ def run(ctx):
     ctx.extra["bounds"] = dict(jobs=[j[0] for j in jobs], rows_one_feature=ctx.pick(3, 4), rows_two_features=ctx.pick(2, 3))
     ctx.assumptions += [
         "floats: produced values are compared with the spec's exact rationals to 1e-9 (relative); rounding, overflow and values within 1e-6 of a zero spread are not explored",
-        "outside the domain (spec InDomain): a non-zero shift for sparse contexts, NaN in Impute data, lists of statistics together with indicator=True; cells whose statistic cannot be computed from the window (no non-missing value, std of < 2 values, median of strings) are accepted with any value unless shift and scale are both given numbers; a non-imputable feature with a None in the window may or may not get an indicator",
+        "outside the domain (spec InDomain): a non-zero shift for sparse contexts, NaN in Impute data; cells whose statistic cannot be computed from the window (no non-missing value, std of < 2 values, median of strings) are accepted with any value unless shift and scale are both given numbers; a non-imputable feature with a None in the window may or may not get an indicator",
         "two-feature data sets pair an arbitrary column with one of four fixed companion columns (both orders)",
         "through Environments.scale / impute the trailing Finalize step of the pipeline is trusted (it wraps the reward list)",
     ]
@@ -369,6 +369,8 @@ def classify(case, rep, api, kind, detail, at):
             if unscaled and par["sc"]["k"] == "maxabs" and rep != "int": return "scale:maxabs-int-shift-float-values"
         return generic
     stats = par["stats"]
+    if api == "envlist" and par["ind"] and kind == "differs" and (j is None):
+        return "impute:env-list:indicator"                       # an added (indicator) position or the layout of a list with indicator=True
     if api == "envlist" and stats[0] != stats[1] and kind in ("differs", "raises"): return "impute:env-list-only-last-statistic"
     if kind == "raises" and detail == "KeyError" and shape == "sparse": return "impute:sparse:raises-KeyError"
     if kind == "differs":
